@@ -592,6 +592,152 @@ func c08(c *core.Ctx) {
 		rM.Check(lower && upper, tr.Key+":half-open", tr.Decl.Pos(), "skips ts < from and ts >= to", "the time window of the index route is not [from,to)")
 	}
 
+	// C08.early: what the shared send loop does with the request (result cap, key lists, projection) it does
+	// for both routes; a route that consumes one of those request fields before the loop applies it on
+	// its own rows only, and in a different order with respect to the loop's other skips.
+	rE := c.Rule("C08.early", "a request field that the code after the route split consumes for both routes (MaxResults, the key lists, ...) is not read inside one route's branch: a cap or key list applied to the index route's candidates before the shared loop is applied before the loop's other skips on that route only, so the two routes return different rows for the same request", 2)
+	{
+		n := 0
+		for _, f := range p.FuncsIn(pkgGateway) {
+			if f.Decl.Body == nil {
+				continue
+			}
+			info := f.Info()
+			var splits []*ast.IfStmt
+			ast.Inspect(f.Decl.Body, func(x ast.Node) bool {
+				is, ok := x.(*ast.IfStmt)
+				if !ok {
+					return true
+				}
+				hit := false
+				ast.Inspect(is.Cond, func(y ast.Node) bool {
+					if call, isCall := y.(*ast.CallExpr); isCall && core.IsWsCallTo(info, call, pkgGateway+".bucketExecPreconditions") {
+						hit = true
+					}
+					return true
+				})
+				if hit {
+					splits = append(splits, is)
+				}
+				return true
+			})
+			for _, is := range splits {
+				n++
+				c.Touch(f)
+				// the enclosing block of the split
+				var encl *ast.BlockStmt
+				for _, nd := range core.PathTo(f.Decl.Body, is) {
+					if b, ok := nd.(*ast.BlockStmt); ok && b.Pos() <= is.Pos() && is.End() <= b.End() && b != is.Body {
+						encl = b
+					}
+				}
+				if encl == nil {
+					encl = f.Decl.Body
+				}
+				isReqGetter := func(call *ast.CallExpr) *types.Func {
+					fo := core.Callee(info, call)
+					if fo == nil || !strings.HasPrefix(fo.Name(), "Get") || fo.Pkg() == nil || !strings.HasSuffix(fo.Pkg().Path(), "hydraidepbgo") {
+						return nil
+					}
+					sig := fo.Type().(*types.Signature)
+					if sig.Recv() == nil || sig.Params().Len() != 0 {
+						return nil
+					}
+					return fo
+				}
+				after := map[*types.Func]bool{}
+				for _, st := range encl.List {
+					if st.Pos() <= is.End() {
+						continue
+					}
+					core.Calls(st, true, func(call *ast.CallExpr) {
+						if fo := isReqGetter(call); fo != nil {
+							after[fo] = true
+						}
+					})
+				}
+				// locals that carry a request field (defined from a request getter anywhere in the function) and are used after the split
+				carrier := map[types.Object]bool{}
+				ast.Inspect(f.Decl.Body, func(x ast.Node) bool {
+					as, ok := x.(*ast.AssignStmt)
+					if !ok || len(as.Lhs) != len(as.Rhs) {
+						return true
+					}
+					for i, r := range as.Rhs {
+						from := false
+						reqVars := map[types.Object]bool{}
+						core.Calls(r, false, func(call *ast.CallExpr) {
+							if isReqGetter(call) != nil {
+								from = true
+								if o := core.ObjOf(info, core.RecvExpr(call)); o != nil {
+									reqVars[o] = true
+								}
+							}
+						})
+						// nothing but the request itself feeds the value
+						ast.Inspect(r, func(y ast.Node) bool {
+							if id, isId := y.(*ast.Ident); isId {
+								if v, isVar := info.Uses[id].(*types.Var); isVar && !v.IsField() && !reqVars[v] {
+									from = false
+								}
+							}
+							return true
+						})
+						if from {
+							if o := core.ObjOf(info, as.Lhs[i]); o != nil {
+								carrier[o] = true
+							}
+						}
+					}
+					return true
+				})
+				afterObj := map[types.Object]bool{}
+				for _, st := range encl.List {
+					if st.Pos() <= is.End() {
+						continue
+					}
+					ast.Inspect(st, func(y ast.Node) bool {
+						if id, isId := y.(*ast.Ident); isId && carrier[info.Uses[id]] {
+							afterObj[info.Uses[id]] = true
+						}
+						return true
+					})
+				}
+				var bad ast.Expr
+				check := func(branch ast.Node) {
+					if branch == nil {
+						return
+					}
+					core.Calls(branch, true, func(call *ast.CallExpr) {
+						if fo := isReqGetter(call); fo != nil && after[fo] && bad == nil {
+							bad = call.Fun
+						}
+					})
+					ast.Inspect(branch, func(y ast.Node) bool {
+						if id, isId := y.(*ast.Ident); isId && afterObj[info.Uses[id]] && bad == nil {
+							bad = id
+						}
+						return true
+					})
+				}
+				check(is.Body)
+				check(is.Else)
+				construct := f.Key + ":route-branches-leave-shared-fields-to-the-loop"
+				if len(splits) > 1 {
+					construct += "#" + itoa(n)
+				}
+				if bad != nil {
+					rE.Bad(construct, bad.Pos(), "one route's branch reads "+core.ExprStr(bad)+", which the code after the split applies to both routes: that route caps or filters its rows before the shared loop's other skips, the other route after them")
+				} else {
+					rE.Ok(construct, is.Pos(), "no request field consumed after the split is read inside a route branch ("+itoa(len(after)+len(afterObj))+" such fields)")
+				}
+			}
+		}
+		if n == 0 {
+			rE.Bad(pkgGateway+":route-split", token.NoPos, "no route split (bucketExecPreconditions test) found")
+		}
+	}
+
 	rO := c.Rule("C08.oneof", "the planner's literal table (compareValueToAny) and the scan route's typed switch cover the same CompareValue wrappers", 1)
 	{
 		a, b := wrapperCases(toAny), wrapperCases(eval)
